@@ -32,6 +32,29 @@ Proof.
 Qed.
 
 (* ---------------------------------------------------------------- the parser on plain texts *)
+Lemma parse_numexpr_no_paren : forall sp src k c r,
+  count_neg src = (k, String c r) -> is_digit c = true ->
+  parse_numexpr sp src = parse_numexpr_flat sp src.
+Proof.
+  intros sp src k c r H Hc. unfold parse_numexpr. rewrite H.
+  ascii_cases c; try discriminate Hc; reflexivity.
+Qed.
+Lemma split_last_snoc : forall t c, split_last (t ++ String c "") = Some (t, c).
+Proof.
+  induction t as [|a t IH]; intros c; [reflexivity|].
+  cbn [append split_last]. rewrite IH. destruct (t ++ String c "") eqn:E; [|reflexivity].
+  destruct t; discriminate E.
+Qed.
+Lemma read_source_paren : forall sp t,
+  parse_numexpr sp t = parse_numexpr_flat sp t ->
+  read_source sp ("(" ++ t ++ ")") = read_source sp t.
+Proof.
+  intros sp t H. unfold read_source. rewrite H. unfold parse_numexpr.
+  change (count_neg ("(" ++ t ++ ")")) with (O, String "(" (t ++ ")")). cbv beta iota.
+  rewrite (split_last_snoc t ")"). cbv beta iota.
+  destruct (parse_numexpr_flat sp t); reflexivity.
+Qed.
+
 Lemma read_source_plain : forall sp s ip fp,
   parse_contract sp -> all_digits ip = true -> ip <> "" -> all_digits fp = true ->
   read_source sp (sign_str s ++ plain ip fp)
@@ -48,7 +71,11 @@ Proof.
         with (let '(n, t) := count_neg (plain ip fp) in (S n, t)).
       rewrite Hpl. now rewrite (count_neg_digit c r Hc).
     - rewrite Hpl. apply (count_neg_digit c r Hc). }
-  unfold read_source, parse_numexpr. rewrite Hcn. rewrite Hpl at 1. rewrite Hc. cbn [orb].
+  unfold read_source.
+  assert (Hcn' : count_neg (sign_str s ++ plain ip fp) = ((if s then 1 else 0)%nat, String c r))
+    by (rewrite Hcn; now rewrite Hpl).
+  rewrite (parse_numexpr_no_paren sp _ _ c r Hcn' Hc).
+  unfold parse_numexpr_flat. rewrite Hcn. rewrite Hpl at 1. rewrite Hc. cbn [orb].
   rewrite (lex_number_plain ip fp Hi Hne Hf).
   rewrite (literal_value_plain sp ip fp Hi Hne Hf), (Hsp ip fp Hi Hne Hf).
   unfold ref_str_parse.
@@ -66,6 +93,23 @@ Section RoundTrip.
   Variable display : num -> string.
   Variable str_parse : string -> option num.
 
+  (* what print_num prints, under the two printing contracts: [-]ddd[.ddd] denoting x *)
+  Lemma print_num_shape : forall x,
+    valid_binary 53 1024 x = true -> is_finite x = true ->
+    (nfract_is_zero x && nltb (nabs x) c1e15 = true -> prec0_contract (fmt_prec0 x) x) ->
+    (nfract_is_zero x && nltb (nabs x) c1e15 = false -> display_contract (display x) x) ->
+    display_contract (print_num fmt_prec0 display x) x.
+  Proof.
+    intros x Hv Hf Hp0 Hd. unfold print_num.
+    destruct (nfract_is_zero x && nltb (nabs x) c1e15) eqn:Hb.
+    - destruct (Hp0 eq_refl) as (ip & Ht & Hi & Hne & Hval).
+      apply andb_prop in Hb. destruct Hb as [Hz _].
+      exists ip, "". unfold plain, frac_text. cbn [is_empty]. rewrite !app_nil_r'.
+      repeat split; auto. rewrite Hval. change (0 - slen "") with 0.
+      apply rn_decimal_integral; auto.
+    - exact (Hd eq_refl).
+  Qed.
+
   Theorem source_reads_back : forall x,
     valid_binary 53 1024 x = true -> is_finite x = true ->
     parse_contract str_parse ->
@@ -73,15 +117,32 @@ Section RoundTrip.
     (nfract_is_zero x && nltb (nabs x) c1e15 = false -> display_contract (display x) x) ->
     read_source str_parse (print_num fmt_prec0 display x) = Ok x.
   Proof.
-    intros x Hv Hf Hsp Hp0 Hd. unfold print_num.
-    destruct (nfract_is_zero x && nltb (nabs x) c1e15) eqn:Hb.
-    - destruct (Hp0 eq_refl) as (ip & Ht & Hi & Hne & Hval).
-      apply andb_prop in Hb. destruct Hb as [Hz _].
-      rewrite Ht. rewrite <- (app_nil_r' ip). change (ip ++ "") with (plain ip "").
-      rewrite (read_source_plain str_parse (nsign x) ip "" Hsp Hi Hne eq_refl).
-      rewrite app_nil_r', Hval. f_equal. apply rn_decimal_integral; auto.
-    - destruct (Hd eq_refl) as (ip & fp & Ht & Hi & Hne & Hfp & Hval).
-      rewrite Ht, (read_source_plain str_parse (nsign x) ip fp Hsp Hi Hne Hfp). now f_equal.
+    intros x Hv Hf Hsp Hp0 Hd.
+    destruct (print_num_shape x Hv Hf Hp0 Hd) as (ip & fp & Ht & Hi & Hne & Hfp & Hval).
+    rewrite Ht, (read_source_plain str_parse (nsign x) ip fp Hsp Hi Hne Hfp). now f_equal.
+  Qed.
+
+  (* function-source emission (serializable_value_to_source): negative numbers are parenthesised *)
+  Theorem emission_reads_back : forall x,
+    valid_binary 53 1024 x = true -> is_finite x = true ->
+    parse_contract str_parse ->
+    (nfract_is_zero x && nltb (nabs x) c1e15 = true -> prec0_contract (fmt_prec0 x) x) ->
+    (nfract_is_zero x && nltb (nabs x) c1e15 = false -> display_contract (display x) x) ->
+    read_source str_parse (emit_num fmt_prec0 display x) = Ok x.
+  Proof.
+    intros x Hv Hf Hsp Hp0 Hd. unfold emit_num. cbv zeta.
+    assert (Hn : is_nan x = false) by (destruct x; try discriminate Hf; reflexivity).
+    rewrite Hn.
+    destruct (nsign x) eqn:Hs; [|now apply source_reads_back].
+    destruct (print_num_shape x Hv Hf Hp0 Hd) as (ip & fp & Ht & Hi & Hne & Hfp & Hval).
+    rewrite read_source_paren; [now apply source_reads_back|].
+    rewrite Ht, Hs. cbn [sign_str append].
+    destruct ip as [|c ip']; [congruence|]. pose proof Hi as Hi'. simpl in Hi'. apply andb_prop in Hi'.
+    apply (parse_numexpr_no_paren str_parse _ 1%nat c (ip' ++ frac_text fp)); [|tauto].
+    change (count_neg (String "-" (plain (String c ip') fp)))
+      with (let '(n, t) := count_neg (plain (String c ip') fp) in (S n, t)).
+    unfold plain. change (String c ip' ++ frac_text fp) with (String c (ip' ++ frac_text fp)).
+    now rewrite (count_neg_digit c _ (proj1 Hi')).
   Qed.
 
   (* the formatter prints a number exactly as expr_to_source does, at every width *)
